@@ -104,4 +104,8 @@ partial def fnJ : TestFunction → String
   | .match a b => "{\"name\":" ++ cps "match".toList ++ ",\"args\":[" ++ argJ a ++ "," ++ argJ b ++ "]}"
 end
 
+/-- does the exact rational `n/d` round to a finite IEEE-754 double (round to nearest, ties to even)? Values of magnitude at least
+2^1024 − 2^970 round to ±infinity; denominator 0 marks a decimal exponent far beyond that -/
+def f64Finite (n : Int) (d : Nat) : Bool := d != 0 && decide (n.natAbs < d * (2 ^ 1024 - 2 ^ 970))
+
 end JP
